@@ -254,7 +254,9 @@ fn out_json(o: &Out) -> Value {
 fn run_history(m: &mut Monitor, hist_seed: u64, len: usize) {
     let mut rng = Rng::new(hist_seed);
     let ids = ids(&mut rng);
-    let scratch = Scratch::new("c45");
+    // vcore::Scratch names are only unique per process+tag, so the tag carries the history seed
+    // (histories run concurrently on all cores).
+    let scratch = Scratch::new(&format!("c45-{hist_seed:016x}"));
     let dir = scratch.path().join("store");
     if let Err(e) = std::fs::create_dir_all(&dir) {
         m.inconclusive(&format!("harness: cannot create scratch dir: {e}"));
@@ -332,6 +334,7 @@ fn run_history(m: &mut Monitor, hist_seed: u64, len: usize) {
         }
         let got_mem = apply_store(&mut mem, &ids, &op, &fresh);
         let got_fs = apply_store(&mut fs, &ids, &op, &fresh);
+        let mut mismatch = false;
         for (store, got) in [("memstore", &got_mem), ("fs-store", &got_fs)] {
             if *got != want {
                 let class = match got {
@@ -346,8 +349,21 @@ fn run_history(m: &mut Monitor, hist_seed: u64, len: usize) {
                     json!({"store": store, "op": format!("{op:?}"), "expected": out_json(&want), "got": out_json(got),
                            "occupied_before": was.iter().map(|i| i.to_string()).collect::<Vec<_>>()}),
                 );
+                mismatch = true;
+            }
+        }
+        if mismatch {
+            // Keep exploring the rest of the history only if both stores still hold exactly the
+            // model's contents (the failed call may or may not have taken effect).
+            let in_sync = ids.iter().enumerate().all(|(i, id)| {
+                let w = Out::Got(model.get(id).cloned());
+                apply_store(&mut mem, &ids, &Op::Get(i), &fresh) == w && apply_store(&mut fs, &ids, &Op::Get(i), &fresh) == w
+            }) && listing(&dir).map(|(n, _)| n == model.keys().map(|i| i.to_string()).collect::<BTreeSet<_>>()).unwrap_or(false);
+            if !in_sync {
+                m.count("histories_abandoned_after_divergence", 1);
                 return;
             }
+            m.count("histories_continued_after_reported_mismatch", 1);
         }
 
         // directory contents: after a dropped vacant entry and after a reopen (and, cheaply, always)
@@ -432,7 +448,7 @@ fn main() {
          end the directory listing must be exactly the model's ids (the store's own `__canary` file ignored); after reopen all \
          6 ids are read back. non-trivial = history that ran to its end, distinct by its operation sequence",
     )
-    .min(args.n(200, 2000))
+    .min(args.n(2000, 50_000))
     .require("listings_after_vacant_drop", "dropped vacant entries must have been followed by a listing")
     .require("listings_after_reopen", "reopen must have been followed by a listing")
     .require("op:occupied-get", "occupied entry reads")
@@ -447,7 +463,7 @@ fn main() {
         finish_all(&args, vec![m]);
     }
 
-    let histories = args.n(4000, 80_000);
+    let histories = args.n(8000, 250_000);
     let cap = args.tier.pick(70.0, 800.0);
     mon_crypto::run_sharded(&args, &mut m, histories, cap, |m, k| {
         let hs = mon_crypto::case_seed(&args, 45, k);
